@@ -7,13 +7,19 @@
 //!   un  X                the value itself, neg, abs, f64::from
 //!   ch  X op Y op Z ...  left-to-right chain, every intermediate is printed
 //!   const                ZERO, ONE, Default
+//!   fm  X                Display / Debug / Show / to_string with several format specifications, compared with what std prints
+//!                        for the f64 value (formatting goes through f64)
+//!   pg  MODE X0 X1 X2 X3 ; op ; ...   register programs, see prog.rs
 //! Results: f80 values as 20 hex digits, f64 values as 16 hex digits, any NaN as `nan`.
 #[path = "../../common/mod.rs"]
 mod common;
 use common::*;
 use rlib_f80::{f80, f80_init};
 use rlib_num_traits::ZeroOne;
+use rlib_show::{Show, ShowSettings};
 use std::cmp::Ordering;
+mod gen3;
+mod prog;
 
 // ------------------------------------------------------------------------------------------------
 // raw access to the ten bytes (the field is private; reading/writing the bytes is the observation)
@@ -117,6 +123,66 @@ fn b(x: bool) -> char {
     }
 }
 
+
+/// text with blanks made visible (a protocol token may not contain blanks or `|`)
+fn vis(s: &str) -> String {
+    s.replace(' ', "_").replace('|', "!")
+}
+
+/// `fm X`: every formatting entry point of f80 against std's formatting of the f64 value (an oracle independent of the
+/// crate: the conversion itself is compared with the model through `f64=`).
+fn run_fm(x: f80) -> String {
+    let f = f64::from(x);
+    let mut bad: [Vec<String>; 3] = [Vec::new(), Vec::new(), Vec::new()];
+    macro_rules! disp {
+        ($spec:literal) => {
+            let (got, want) = (format!($spec, x), format!($spec, f));
+            if got != want {
+                bad[0].push(format!("{}:{}:{}", vis($spec), vis(&got), vis(&want)));
+            }
+        };
+    }
+    disp!("{}");
+    disp!("{:.0}");
+    disp!("{:.3}");
+    disp!("{:.20}");
+    disp!("{:+}");
+    disp!("{:12.4}");
+    disp!("{:<14.1}|");
+    disp!("{:^+13.2}|");
+    disp!("{:+012.5}");
+    disp!("{:*>9}");
+    {
+        let (got, want) = (x.to_string(), f.to_string());
+        if got != want {
+            bad[0].push(format!("to_string:{}:{}", vis(&got), vis(&want)));
+        }
+    }
+    // Debug: the crate forwards to a `fmt` of f64; both of f64's texts (`1.0` and `1`) count as "f64's text"
+    macro_rules! dbg_ {
+        ($spec:literal, $alt:literal) => {
+            let got = format!($spec, x);
+            if got != format!($spec, f) && got != format!($alt, f) {
+                bad[1].push(format!("{}:{}:{}", vis($spec), vis(&got), vis(&format!($spec, f))));
+            }
+        };
+    }
+    dbg_!("{:?}", "{}");
+    dbg_!("{:.2?}", "{:.2}");
+    dbg_!("{:10?}|", "{:10}|");
+    dbg_!("{:+?}", "{:+}");
+    for p in [9usize, 0, 3, 17] {
+        let mut st = ShowSettings::new();
+        st.float_precision = p;
+        let (got, want) = (x.show(&st), format!("{:.*}", p, f));
+        if got != want {
+            bad[2].push(format!("prec{}:{}:{}", p, vis(&got), vis(&want)));
+        }
+    }
+    let tok = |k: usize| if bad[k].is_empty() { "same".to_string() } else { format!("differ[{}]", bad[k].join(",")) };
+    out1(&format!("f64={} disp={} dbg={} show={}", show64(f), tok(0), tok(1), tok(2)))
+}
+
 fn run_case(line: &str) -> String {
     let t: Vec<&str> = line.split_whitespace().collect();
     let bad = || "I bad-case | V bad-case".to_string();
@@ -124,6 +190,11 @@ fn run_case(line: &str) -> String {
         return bad();
     }
     match t[0] {
+        "pg" => prog::run_pg(line).unwrap_or_else(bad),
+        "fm" if t.len() == 2 => match operand(t[1]) {
+            Some(x) => run_fm(x.v),
+            None => bad(),
+        },
         "ar" if t.len() == 3 => {
             let (x, y) = match (operand(t[1]), operand(t[2])) {
                 (Some(x), Some(y)) => (x.v, y.v),
@@ -448,6 +519,36 @@ fn gen(args: &Args, emit: &mut dyn FnMut(String), stats: &mut Stats) {
             emit(format!("un {}", tok80(a.0, a.1)));
             stats.add("preinit_random80", 2);
         }
+        // register programs on the main thread and on freshly spawned threads of a process that never called f80_init()
+        gen3::programs(&mut rng, &bset, 300, 2, 60, 4, emit, stats);
+        return;
+    }
+
+    // `--stream debug`: the reduced stream of the debug build profile (unoptimised code around the asm blocks): the specials
+    // paired with all of B, the unary cases, a sample of 80-bit operands and the wave-3 streams in small sizes
+    if args.extra.get("stream").map(|s| s.as_str()) == Some("debug") {
+        let specials: Vec<u64> = vec![0, 1 << 63, 0x7ff0_0000_0000_0000, 0xfff0_0000_0000_0000, 0x7ff8_0000_0000_0000, 0xfff8_0000_0000_0000,
+                                      1, 0x3ff0_0000_0000_0000, 0xc008_0000_0000_0000, 0x7fef_ffff_ffff_ffff];
+        for &x in bset.iter() {
+            for &y in specials.iter() {
+                emit(format!("ar {} {}", tok64(x), tok64(y)));
+                emit(format!("cmp {} {}", tok64(x), tok64(y)));
+                emit(format!("cmp {} {}", tok64(y), tok64(x)));
+                stats.add("debug_special_pairs", 3);
+            }
+            emit(format!("un {}", tok64(x)));
+            emit(format!("ch {} / {} * {}", tok64(x), tok64(3.0f64.to_bits()), tok64(3.0f64.to_bits())));
+            stats.add("debug_un_ch", 2);
+        }
+        for _ in 0..(if thorough { 30_000 } else { 2500 }) {
+            let a = rand80(&mut rng, false);
+            let bb = related80(&mut rng, a);
+            emit(format!("ar {} {}", tok80(a.0, a.1), tok80(bb.0, bb.1)));
+            emit(format!("cmp {} {}", tok80(a.0, a.1), tok80(bb.0, bb.1)));
+            emit(format!("un {}", tok80(a.0, a.1)));
+            stats.add("debug_random80", 3);
+        }
+        gen3::wave3(&mut rng, if thorough { "debug-thorough" } else { "debug" }, emit, stats);
         return;
     }
 
@@ -573,6 +674,8 @@ fn gen(args: &Args, emit: &mut dyn FnMut(String), stats: &mut Stats) {
             stats.bump("ar_exotic80");
         }
     }
+    // --- wave 3: ties, register programs (several live objects, results fed back, threads), formatting ---
+    gen3::wave3(&mut rng, if thorough { "thorough" } else { "quick" }, emit, stats);
 }
 
 fn main() {
